@@ -44,6 +44,7 @@ type Frame struct {
 	result    V
 	caller    *Frame
 	visits    map[*ssa.BasicBlock]int
+	skipPhis  bool
 }
 
 type funcInfo struct {
@@ -118,6 +119,17 @@ type Interp struct {
 	concreteAssign map[string]string
 	concFailures   []string
 	concReached    []string
+	lastClock      *Term
+	// speculation (merge.go)
+	spec         int
+	specBase     int
+	specDefs     []*Term
+	pdoms        map[*ssa.Function]*postDom
+	mergeFail    map[*ssa.If]int
+	NoMerge      bool
+	Merges       int
+	SpecMaxSteps int64
+	clockN         int
 	Opaque  map[int]interface{} // handles for opaque host objects
 	UnwindFailIsViolation bool
 }
@@ -168,10 +180,14 @@ func NewInterp(prog *ssa.Program, solver *Solver) *Interp {
 		initDone: map[*ssa.Package]bool{},
 		MaxSteps: 20_000_000, MaxDecisions: 400, MaxDepth: 2000, MaxLoop: 64,
 		typeIDs:   map[string]uint64{},
+		pdoms:     map[*ssa.Function]*postDom{},
+		mergeFail: map[*ssa.If]int{},
+		SpecMaxSteps: 50000,
 		implCache: map[[2]types.Type]bool{},
 		Opaque:    map[int]interface{}{},
 	}
 	registerIntrinsics(in)
+	registerIntrinsics2(in)
 	return in
 }
 
@@ -325,6 +341,16 @@ func (in *Interp) assume(c *Term) {
 	in.Solver.Assert(c)
 }
 
+// define adds a definitional constraint (about a fresh variable; holds on
+// every path).  Inside a speculated region it is remembered and re-asserted
+// after the merge.
+func (in *Interp) define(c *Term) {
+	if in.spec > 0 {
+		in.specDefs = append(in.specDefs, c)
+	}
+	in.assume(c)
+}
+
 // decide returns the truth value of cond on this path, forking when both
 // outcomes are feasible.
 func (in *Interp) decide(cond *Term) bool {
@@ -333,6 +359,17 @@ func (in *Interp) decide(cond *Term) bool {
 	}
 	if in.concreteGen != nil {
 		panic(&pathEnd{Kind: "unsupported", Msg: "symbolic branch in concrete mode"})
+	}
+	if in.spec > 0 {
+		if in.Solver.CheckWith(cond) == Unsat {
+			in.assume(Not(cond))
+			return false
+		}
+		if in.Solver.CheckWith(Not(cond)) == Unsat {
+			in.assume(cond)
+			return true
+		}
+		panic(&specAbort{"fork in region"})
 	}
 	in.symSeq++
 	var d int
@@ -381,6 +418,7 @@ func (in *Interp) choose(n int) int {
 	if n <= 1 {
 		return 0
 	}
+	in.specAbortIf("choose in region")
 	var d int
 	if in.pos < len(in.prefix) {
 		d = in.prefix[in.pos]
@@ -538,7 +576,15 @@ func (in *Interp) runFrame(fr *Frame) {
 		}
 		// phis
 		i := 0
-		if len(b.Instrs) > 0 {
+		if fr.skipPhis {
+			fr.skipPhis = false
+			for i < len(b.Instrs) {
+				if _, ok := b.Instrs[i].(*ssa.Phi); !ok {
+					break
+				}
+				i++
+			}
+		} else if len(b.Instrs) > 0 {
 			if _, ok := b.Instrs[0].(*ssa.Phi); ok {
 				var vals []V
 				pi := -1
@@ -724,6 +770,9 @@ func (in *Interp) exec(fr *Frame, instr ssa.Instruction) cont {
 		in.store(in.get(fr, x.Addr).(Ptr), in.get(fr, x.Val))
 	case *ssa.If:
 		c := in.get(fr, x.Cond).(*Term)
+		if c.Op != OpConst && in.tryMerge(fr, x, c) {
+			return kJump
+		}
 		succ := 1
 		if in.decide(c) {
 			succ = 0
@@ -734,9 +783,11 @@ func (in *Interp) exec(fr *Frame, instr ssa.Instruction) cont {
 		in.jumpTo(fr, fr.block.Succs[0])
 		return kJump
 	case *ssa.Defer:
+		in.specAbortIf("defer in region")
 		fn, args := in.prepareCall(fr, &x.Call)
 		fr.defers = append(fr.defers, deferred{fn: fn, args: args, site: x})
 	case *ssa.Go:
+		in.specAbortIf("go in region")
 		fn, args := in.prepareCall(fr, &x.Call)
 		in.spawn(fr, fn, args, x)
 	case *ssa.MakeChan:
